@@ -45,6 +45,7 @@ class Ctx:
         self.deadline = deadline
         self.inputs = {}  # name -> z3 const (registered per path)
         self.bounds = {}  # name -> declared domain constraints
+        self.light = []  # path condition without cut facts (bounds, assumptions, decisions): used to sample path models
         self.stats = dict(
             paths=0, aborted=0, forks=0, forced=0, solver_calls=0, solver_s=0.0,
             obligations=0, discharged=0, trivial=0, sat=0, unsat=0, unknown=0,
@@ -109,6 +110,7 @@ def fork(cond) -> bool:
         if free:
             c.free += 1
         c.solver.add(cond if choice else z3.Not(cond))
+        c.light.append(cond if choice else z3.Not(cond))
         return choice
     # invariant: the path condition is satisfiable
     if c.check(cond) == z3.unsat:
@@ -116,12 +118,14 @@ def fork(cond) -> bool:
         c.pos += 1
         c.stats['forced'] += 1
         c.solver.add(z3.Not(cond))
+        c.light.append(z3.Not(cond))
         return False
     if c.check(z3.Not(cond)) == z3.unsat:
         c.trail.append([True, True, False])
         c.pos += 1
         c.stats['forced'] += 1
         c.solver.add(cond)
+        c.light.append(cond)
         return True
     if c.split is not None and c.free < c.split[1]:
         # this free decision is fixed by the split index: the sibling subtree belongs to another job
@@ -131,12 +135,14 @@ def fork(cond) -> bool:
         c.free += 1
         c.stats['forks'] += 1
         c.solver.add(cond if choice else z3.Not(cond))
+        c.light.append(cond if choice else z3.Not(cond))
         return choice
     c.trail.append([True, False, True])
     c.pos += 1
     c.free += 1
     c.stats['forks'] += 1
     c.solver.add(cond)
+    c.light.append(cond)
     return True
 
 
@@ -148,8 +154,31 @@ def assume(cond):
     if z3.is_true(cond):
         return
     c.solver.add(cond)
+    c.light.append(cond)
     if z3.is_false(cond) or c.check() == z3.unsat:
         raise PathAbort()
+
+
+def _light_model(c):
+    """Model of the path condition proper (declared domains, assumptions, branch decisions).  Cut facts are
+    consequences of it and are left out, which keeps this query cheap; None if the solver gives up."""
+    s = z3.Solver()
+    s.set('timeout', 15000)
+    for bs in c.bounds.values():
+        s.add(*[b for b in bs if not _mentions_fresh(b)])
+    s.add(*c.light)
+    try:
+        if s.check() == z3.sat:
+            return s.model()
+    except z3.Z3Exception:
+        pass
+    return None
+
+
+def _mentions_fresh(t):
+    names = {}
+    _free_consts(t, names)
+    return any('!' in n for n in names)
 
 
 def explore(body, *, timeout_ms=60000, seed=0, max_paths=10**6, budget_s=None,
@@ -166,12 +195,15 @@ def explore(body, *, timeout_ms=60000, seed=0, max_paths=10**6, budget_s=None,
             c.pos = 0
             c.free = 0
             c.inputs = {}
+            c.light = []
             try:
                 body()
                 c.stats['paths'] += 1
                 if len(c.path_models) < sample_models or c.stats['paths'] % 97 == 0:
-                    if len(c.path_models) < 4 * sample_models and c.check() == z3.sat:
-                        c.path_models.append(model_inputs(c.solver.model()))
+                    if len(c.path_models) < 4 * sample_models:
+                        m = _light_model(c)
+                        if m is not None:
+                            c.path_models.append(model_inputs(m))
             except PathAbort:
                 c.stats['aborted'] += 1
             except StopExploration:
@@ -708,6 +740,16 @@ def fresh_real(prefix='cut'):
 
 def fresh_int(prefix='cut'):
     return SNum(z3.FreshInt(prefix))
+
+
+def cut_symbol(sym, facts):
+    """Attach proved facts to a fresh cut symbol: asserted on the path and remembered as its declared domain,
+    so isolated proofs that mention the symbol see them."""
+    c = ctx()
+    fs = [_bt(f) for f in facts]
+    c.solver.add(*fs)
+    c.bounds.setdefault(sym.t.decl().name(), []).extend(fs)
+    return sym
 
 
 def fresh_bool(prefix='cut'):
